@@ -12,6 +12,7 @@
  */
 
 #include "cppStructType.h"
+#include "cppArrayType.h"
 #include "cppTypedefType.h"
 #include "cppReferenceType.h"
 #include "cppScope.h"
@@ -23,6 +24,22 @@
 #include "cppTBDType.h"
 #include "indent.h"
 #include "cppParser.h"
+
+/**
+ * Returns the type of the objects that make up a data member of the given
+ * type: the element type if it is an array, the type itself otherwise.  A
+ * class can be implicitly constructed, copied and destroyed if this is possible
+ * for each of these objects.
+ */
+static CPPType *
+get_member_object_type(CPPType *type) {
+  CPPArrayType *array_type = type->as_array_type();
+  while (array_type != nullptr) {
+    type = array_type->_element_type;
+    array_type = type->as_array_type();
+  }
+  return type;
+}
 
 /**
  * Returns true if a const object of the given type may be default-initialized,
@@ -50,7 +67,7 @@ is_const_default_constructible(CPPType *type) {
 
     if ((instance->_storage_class & CPPInstance::SC_static) == 0 &&
         instance->_initializer == nullptr &&
-        !is_const_default_constructible(instance->_type)) {
+        !is_const_default_constructible(get_member_object_type(instance->_type))) {
       return false;
     }
   }
@@ -631,13 +648,12 @@ is_default_constructible(CPPVisibility min_vis) const {
       continue;
     }
 
-    if (!instance->_type->is_default_constructible() ||
-        !instance->_type->is_destructible()) {
+    CPPType *type = get_member_object_type(instance->_type);
+    if (!type->is_default_constructible() || !type->is_destructible()) {
       return false;
     }
 
-    if (instance->_type->is_const() &&
-        !is_const_default_constructible(instance->_type)) {
+    if (type->is_const() && !is_const_default_constructible(type)) {
       // A const member that would be left uninitialized.
       return false;
     }
@@ -714,8 +730,8 @@ is_copy_constructible(CPPVisibility min_vis) const {
       continue;
     }
 
-    if (!instance->_type->is_copy_constructible() ||
-        !instance->_type->is_destructible()) {
+    CPPType *type = get_member_object_type(instance->_type);
+    if (!type->is_copy_constructible() || !type->is_destructible()) {
       return false;
     }
   }
@@ -890,7 +906,7 @@ is_destructible(CPPVisibility min_vis) const {
 
     // If the data member is not destructible, no go.
     assert(instance->_type != nullptr);
-    if (!instance->_type->is_destructible()) {
+    if (!get_member_object_type(instance->_type)->is_destructible()) {
       return false;
     }
   }
